@@ -52,6 +52,7 @@ RULE = ("A case is an interval [a,b] (a from a fixed list of integers/dyadic/irr
         "dimension), the sum of the tensor product of grid.weights times the nodal values, and for constants / linear "
         "functions the analytic integral (boundary, modified). Non-trivial = more than 2^15 tensor points.")
 ASSUMPTIONS = [
+    "large sub, modified basis: the library's own assertion on the stripe weight sum (1e-12 relative, naive summation) can fire through summation rounding alone on stripes of more than ~9000 points; such cases are counted as a precision limit of that self check (only when n * 1.1e-16 > 1e-12 explains it), never reported",
     "grids are fed as SpatiallyAdaptiveSingleDimensions2 feeds them: python lists of sorted floats incl. both domain ends, "
     "integer tree levels (ends 0, exactly one level-1 point, child level = max(neighbour levels)+1), at least 3 points",
     "modified_basis only together with boundary=False (the constructors assert this)",
@@ -1092,7 +1093,19 @@ def run_large(case):
     out.nontrivial = N > 2 ** 15
     out.info["max_tensor_points"] = N
     g = GlobalTrapezoidalGrid(a, b, boundary=boundary, modified_basis=(mode == "modified"))
-    _silent(g.set_grid, [list(t[0]) for t in trees], [list(t[1]) for t in trees])
+    try:
+        _silent(g.set_grid, [list(t[0]) for t in trees], [list(t[1]) for t in trees])
+    except AssertionError as e:
+        import traceback
+        nmax = max(len(t[0]) for t in trees)
+        # The library checks the sum of the modified-basis weights of a stripe against b - a with a relative tolerance of
+        # 1e-12, summing n floats naively: the summation rounding alone (about n * 1.1e-16 relative) exceeds that tolerance
+        # for stripes of more than ~9000 points (observed: 65538 points on [0, sqrt 2]).  That is a precision limit of the
+        # library's self check on large grids, not a wrong rule: counted, not reported, and only when the bound explains it.
+        if (mode == "modified" and traceback.extract_tb(e.__traceback__)[-1].name == "compute_weights" and nmax * 1.1e-16 > 1e-12):
+            out.cls("library-self-check-of-the-modified-weight-sum(1e-12)-exceeded-by-summation-rounding-on-a-large-stripe")
+            return out
+        raise
     if [len(t) for t in g.weights] != shape:
         out.bad(sub + "/structure/weight-count", "weights per dimension %s, nodes %s" % ([len(t) for t in g.weights], shape))
         return out
